@@ -353,6 +353,9 @@ func EQZ(t *Term) *Term {
 	// field-level equalities
 	if a := t.SingleAtom(); a != nil {
 		if a.Kind == IWOp && a.Op == "or" {
+			if ch := completeChain(a.Args); ch != nil {
+				return EQZ(ch.A.Sub(ch.B))
+			}
 			out := TInt(1)
 			for _, x := range a.Args {
 				out = out.Mul(EQZ(x))
@@ -413,6 +416,9 @@ func NZ(t *Term) *Term { return PNot(EQZ(t)) }
 
 // LT is a < b (as integers).
 func LT(a, b *Term) *Term {
+	if a.Equal(b) {
+		return TInt(0)
+	}
 	_, ahi := a.Bounds()
 	alo, _ := a.Bounds()
 	blo, bhi := b.Bounds()
@@ -476,8 +482,8 @@ func newChain(prev *Chain, x, y *Term) *Chain {
 	if prev != nil {
 		pk = prev.key
 		n = prev.N + 1
-		a = prev.A.Add(x.Scale(pow2(64 * prev.N)))
-		b = prev.B.Add(y.Scale(pow2(64 * prev.N)))
+		a = prev.A.Add(x.Scale(pow2(64 * prev.N))).Recompose()
+		b = prev.B.Add(y.Scale(pow2(64 * prev.N))).Recompose()
 	}
 	k := "chain(" + pk + ";" + x.Key() + ";" + y.Key() + ")"
 	if c, ok := A.chains[k]; ok {
@@ -834,4 +840,35 @@ func groupLimbEqs(preds []*PAtom) (rest []*PAtom, extra *Term) {
 		return rest, e
 	}
 	return preds, nil
+}
+
+// completeChain reports whether args are exactly the difference words of all
+// prefixes of one borrow chain (the whole multi-limb difference) and returns that chain.
+func completeChain(args []*Term) *Chain {
+	byN := map[int]*Chain{}
+	for _, x := range args {
+		a := x.SingleAtom()
+		if a == nil || a.Kind != ICDiff {
+			return nil
+		}
+		if _, dup := byN[a.Chain.N]; dup {
+			return nil
+		}
+		byN[a.Chain.N] = a.Chain
+	}
+	top := byN[len(args)]
+	if top == nil {
+		return nil
+	}
+	ch := top
+	for n := len(args); n >= 1; n-- {
+		if byN[n] != ch {
+			return nil
+		}
+		ch = ch.Prev
+	}
+	if ch != nil {
+		return nil
+	}
+	return top
 }
